@@ -11,6 +11,14 @@ def gen_scenarios(rnd, n, start_id=1):
         s = netgen.gen(rnd, start_id + i)
         if i % 4 == 0:
             s["all"] = False          # report grid instead of every solved step
+        if i % 5 == 3 and s["patterns"] and not s.get("interp"):
+            # a pattern that does not repeat, short enough to end (and one step later still be over) inside the run
+            name = sorted(s["patterns"])[0]
+            s["patterns"][name] = s["patterns"][name][:max(2, min(len(s["patterns"][name]), (s["Dur"] // s["Pat"]) // 2))]
+            if s["patterns"][name][0] == 0:
+                s["patterns"][name][0] = 0.75
+            s["nowrap"] = [name]
+            s["PatStart"] = 0
         if i % 5 == 1 and s["mode"] == "DD":
             # linear pattern interpolation, pattern step a multiple of or unrelated to the hydraulic step
             s["interp"] = True
